@@ -723,7 +723,7 @@ func (check) NumCases(tier string) int {
 	if tier == "thorough" {
 		return 10000
 	}
-	return 200
+	return 600
 }
 func (check) CaseTimeout() time.Duration { return 300 * time.Second }
 func (check) CrashIsViolation() bool     { return true }
